@@ -437,6 +437,9 @@ func (in *Interp) loadSym(t types.Type, p Ptr) Value {
 		}
 		return r
 	}
+	if v, ok := in.loadGrouped(t, p); ok {
+		return v
+	}
 	return in.load(t, in.concretePtr(p))
 }
 
@@ -504,12 +507,8 @@ func (in *Interp) indexAddr(arr []Value, idx *Term) Ptr {
 		return Ptr{cell: &arr[i], arr: arr[i:cap(arr)]}
 	}
 	tb := in.tb
-	var inb *Term
-	if idx.T.S {
-		inb = tb.BAnd(tb.Le(tb.Const(idx.T, 0), idx), tb.Lt(idx, tb.Const(idx.T, uint64(n))))
-	} else {
-		inb = tb.Lt(idx, tb.Const(idx.T, uint64(n)))
-	}
+	inb := in.inBounds(idx, n)
+	_ = tb
 	if n == 0 || !in.decide(inb) {
 		in.goPanic(fmt.Sprintf("runtime error: index out of range [symbolic] with length %d", n))
 	}
@@ -743,10 +742,7 @@ func (in *Interp) strIndex(s Str, idx *Term) *Term {
 		return in.strAt(s, int(i))
 	}
 	tb := in.tb
-	inb := tb.BAnd(tb.Le(tb.Const(idx.T, 0), idx), tb.Lt(idx, tb.Const(idx.T, uint64(n))))
-	if !idx.T.S {
-		inb = tb.Lt(idx, tb.Const(idx.T, uint64(n)))
-	}
+	inb := in.inBounds(idx, n)
 	if n == 0 || !in.decide(inb) {
 		in.goPanic(fmt.Sprintf("runtime error: index out of range [symbolic] with length %d", n))
 	}
